@@ -55,8 +55,12 @@ def configurations(quick):
              Cfg("wb8_s0_lo", "width-boundary", boundary_base(255.4), 0)]
     # 4-byte entries need log_B 2 >= 65536, i.e. a table of more than a million entries
     cfgs.append(Cfg("b1.00001_s0", "std", "1.00001", 0))
+    # 2-byte entries above 32767 (log_B 2 between 2^15 and 2^16)
+    cfgs.append(Cfg("b1.00002_s0", "std", "1.00002", 0))
     if not quick:
         cfgs += [Cfg("b1.00001_s%d" % s, "std", "1.00001", s) for s in (1, 2, 8)]
+        cfgs += [Cfg("b1.000012_s0", "std", "1.000012", 0), Cfg("b1.000001_s4", "std", "1.000001", 4),
+                 Cfg("b1.0001_s3", "std", "1.0001", 3), Cfg("b1.003_s10", "std", "1.003", 10)]
         cfgs += [Cfg("wb16_s1_hi", "width-boundary", boundary_base(131071.2), 1),
                  Cfg("wb16_s1_lo", "width-boundary", boundary_base(131070.8), 1)]
     return cfgs
@@ -160,7 +164,7 @@ def conv_script(c, h, rng, quick):
             ps.append("%.17g" % (1.0 + rng.uniform(-1, 1) * 10 ** rng.uniform(-9, -1)))
         else:   # exact powers of B: the fixed points of the round trip
             ps.append("%.17g" % math.exp(rng.randint(-int(600 / lnB), int(60 / lnB)) * lnB))
-    s = ["cfg %s %s %d" % (c.tag, c.base, c.shift)]
+    s = ["cfg %s %s %d" % (c.tag, c.base, c.shift), "convzero"]
     for i in range(0, len(ps), 500):
         s.append("conv " + " ".join(ps[i:i + 500]))
     s.append("end")
